@@ -1,57 +1,80 @@
 package main
 
-import "strings"
+import "go/ast"
 
-// C17: facts about retry filtering and the BTC executor's mutex
-//   - Lock/Unlock balance of proposalsForExecution and storeProposalsStatus on every return path
-//   - retry.go / eventHandlers/retry.go isExecuted: the "executed" test, the "release" test and the status written
+// C17: regenerated facts about the BTC executor's mutex and the status tests of the retry filters. Every fact is an
+// Option (`none` = anchor not located in an understood shape: o.Unavailable, obligation vacuous). Located by shape:
+// the mutex is the sync.Mutex field of Executor addressed through the method's own receiver name; the functions are
+// found by name or, if renamed, by receiver + signature; `if` chains and `switch` over the status are equivalent.
+//   forExecLock / storeStatusLock : (number of Lock() statements, unlock deferred right after the lock, mutex held at
+//                                    each return, mutex held at the end) — defers ignored in the last two
+//   retryStatus / retryV1Status   : (reported executed for which status, record rewritten for which status, code written)
 func init() {
 	extractors["C17"] = func(o *Out) {
 		btc := o.ParseFile("chains/btc/executor/executor.go")
-		for _, fn := range []struct{ name, lean string }{{"proposalsForExecution", "forExec"}, {"storeProposalsStatus", "storeStatus"}} {
-			d, rs, e, locks := c3LockTrace(FindFunc(btc, "Executor", fn.name), "e.propMutex")
-			o.Facts[fn.name+"_defer_unlock"] = d
-			o.Facts[fn.name+"_returns_held"] = rs
-			o.Facts[fn.name+"_end_held"] = e
-			o.Facts[fn.name+"_locks"] = locks
-			o.Lean.WriteString("/-- `" + fn.name + "`: number of Lock() statements, deferred unlock right after it, mutex held at each return / at the end (defers ignored) -/\n")
-			o.Lean.WriteString("def " + fn.lean + "Locks : Nat := " + itoa(locks) + "\n")
-			o.Lean.WriteString("def " + fn.lean + "DeferUnlock : Bool := " + leanBool(d) + "\n")
-			o.Lean.WriteString("def " + fn.lean + "ReturnsHeld : List Bool := " + leanBoolList(rs) + "\n")
-			o.Lean.WriteString("def " + fn.lean + "EndHeld : Bool := " + leanBool(e) + "\n\n")
+		field := c3MutexField(btc, "Executor")
+		for _, fn := range []struct {
+			name, lean string
+			shape      func(*ast.FuncDecl) bool
+		}{
+			{"proposalsForExecution", "forExecLock", func(fd *ast.FuncDecl) bool {
+				return c3Results(fd) == "[]*BtcTransferProposal, error"
+			}},
+			{"storeProposalsStatus", "storeStatusLock", func(fd *ast.FuncDecl) bool {
+				ts := c3ParamTypes(fd)
+				return c3Results(fd) == "" && len(ts) == 2 && ts[0] == "[]*BtcTransferProposal" && ts[1] == "store.PropStatus"
+			}},
+		} {
+			fd := c3Method(btc, "Executor", fn.name, fn.shape)
+			recv := c3RecvName(fd)
+			ok := fd != nil && field != "" && recv != ""
+			term := "(0, false, [], true)"
+			if ok {
+				d, rs, e, locks := c3LockTrace(fd, recv+"."+field, c3LockHelpers(btc, "Executor", field))
+				o.Facts[fn.name+"_lock"] = map[string]interface{}{"locks": locks, "defer_unlock": d, "returns_held": rs, "end_held": e}
+				term = "(" + itoa(locks) + ", " + leanBool(d) + ", " + leanBoolList(rs) + ", " + leanBool(e) + ")"
+			} else {
+				o.Unavailable(fn.lean, "the function (by name or signature), its receiver name or the executor's sync.Mutex field was not located")
+			}
+			o.Lean.WriteString("/-- `" + fn.name + "`: Lock() statements, unlock deferred right after the lock, mutex held at each return / at the end (defers ignored) -/\n")
+			o.Lean.WriteString("def " + fn.lean + " : Option (Nat × Bool × List Bool × Bool) := " + LeanOpt(ok, term) + "\n\n")
 		}
+
 		for _, src := range []struct{ file, recv, lean string }{
-			{"relayer/retry/retry.go", "", "retry"},
-			{"chains/evm/listener/eventHandlers/retry.go", "RetryV1EventHandler", "retryV1"},
+			{"relayer/retry/retry.go", "", "retryStatus"},
+			{"chains/evm/listener/eventHandlers/retry.go", "RetryV1EventHandler", "retryV1Status"},
 		} {
 			f := o.ParseFile(src.file)
-			fd := FindFunc(f, src.recv, "isExecuted")
-			ex, ok1 := "false", false
-			if c := c3IfWithBody(fd, "return true, nil"); c != nil {
-				ex, ok1 = LeanExpr(c, c3StatusNames("propStatus"))
-			}
-			rel, ok2 := "false", false
-			written := 99
-			if c := c3IfWithBody(fd, "StorePropStatus("); c != nil {
-				rel, ok2 = LeanExpr(c, c3StatusNames("propStatus"))
-			}
-			if fd != nil {
-				body := Src(fd.Body)
-				if i := strings.Index(body, "StorePropStatus("); i >= 0 {
-					call := body[i:]
-					best := len(call)
-					for name, code := range map[string]int{"store.MissingProp": 0, "store.PendingProp": 1, "store.FailedProp": 2, "store.ExecutedProp": 3} {
-						if j := strings.Index(call, name); j >= 0 && j < best {
-							best, written = j, code
+			fd := c3Method(f, src.recv, "isExecuted", func(fd *ast.FuncDecl) bool {
+				return c3Results(fd) == "bool, error" && c3Calls(fd.Body, "PropStatus")
+			})
+			ex, ok1 := c3StatusDecision(fd, func(stmts []ast.Stmt) bool { return c3ReturnsBoolFirst(stmts, "true") })
+			written, ok3 := 0, false
+			rel, ok2 := c3StatusDecision(fd, func(stmts []ast.Stmt) bool {
+				hit := false
+				for _, st := range stmts {
+					Walk(st, func(n ast.Node) bool {
+						if c, ok := n.(*ast.CallExpr); ok {
+							if s, ok := c.Fun.(*ast.SelectorExpr); ok && s.Sel.Name == "StorePropStatus" && len(c.Args) >= 1 {
+								hit = true
+								if code, ok := c3StatusCode(c.Args[len(c.Args)-1]); ok {
+									written, ok3 = code, true
+								}
+							}
 						}
-					}
+						return true
+					})
 				}
+				return hit
+			})
+			ok := ok1 && ok2 && ok3
+			o.Facts[src.lean+"_translated"] = ok
+			if !ok {
+				o.Unavailable(src.lean, "the status tests of isExecuted ("+src.file+") were not located as if / switch over the status with a StorePropStatus call in the release branch")
 			}
-			o.Facts[src.lean+"_translated"] = ok1 && ok2
-			o.Lean.WriteString("/-- `isExecuted` of " + src.file + ": reported executed / released (rewritten) when; status code written -/\n")
-			o.Lean.WriteString("def " + src.lean + "Executed (s : Nat) : Bool := " + ex + "\n")
-			o.Lean.WriteString("def " + src.lean + "Release (s : Nat) : Bool := " + rel + "\n")
-			o.Lean.WriteString("def " + src.lean + "Writes : Nat := " + itoa(written) + "\n\n")
+			o.Lean.WriteString("/-- `isExecuted` of " + src.file + ": reported executed when / record rewritten when (status codes 0 missing, 1 pending, 2 failed, 3 executed); code written -/\n")
+			o.Lean.WriteString("def " + src.lean + " : Option ((Nat → Bool) × (Nat → Bool) × Nat) := " +
+				LeanOpt(ok, "(fun s => "+ex+"), (fun s => "+rel+"), "+itoa(written)) + "\n\n")
 		}
 	}
 }
